@@ -596,7 +596,11 @@ func atpcDescribe(b *atpcBuild, j atpcs.Job) string {
 		fmt.Fprintf(&sb, " fault=%s@%d(0x%02x)", j.Fault.Kind, j.Fault.Off, j.Fault.Val)
 	}
 	if j.WriteFailAfter >= 0 {
-		fmt.Fprintf(&sb, " writes fail after %d", j.WriteFailAfter)
+		if j.WriteFailOnce {
+			fmt.Fprintf(&sb, " write %d fails (only that one)", j.WriteFailAfter+1)
+		} else {
+			fmt.Fprintf(&sb, " writes fail after %d", j.WriteFailAfter)
+		}
 	}
 	if j.PreHello != "" {
 		fmt.Fprintf(&sb, " after-another-client-rejected-hello=%s", j.PreHello)
